@@ -43,7 +43,11 @@
                      after the recovering frame), then `recover()`, `setErr(err)`, arity patch
     respFrame        response loop: `go responseResolver.Publish(res.Call, {res.Value, err, false})`
     pubLookup/pubCtx/pubSendClosed   M1 publisher steps
-    closureInvoke    closureManager.CallClosure: lookup under closuresLock (hit / miss logged)
+    closureInvoke    closureManager.CallClosure: `closuresLock.Lock()`, the lookup (hit / miss logged);
+                     a miss unlocks and returns; a hit starts the closure's body on the invoking thread
+                     — after `Unlock()` (`sk.clInvokeOutsideLock`), or with the mutex still held
+                     (`Lock(); defer Unlock()`: the fact is false)
+    closureBodyDone  the closure's body returns to CallClosure (which releases the mutex if it still holds it)
     setErrEnter      some other thread of the link calls setErr(err)
     setErrStore      `L.Lock(); if fatalErr == nil { fatalErr = err }; Broadcast(); L.Unlock()`
     setErrClose      `responseResolver.Close(err)`;   order of the two by `sk.seOrder`
@@ -62,6 +66,15 @@
   * `callStart` registers all closures of the call in one step and `callRecover`/`callReturnOk`
     release them in one step (in the source: one critical section per closure; the ids are
     fresh and unknown to the peer before the request is written).
+  * the closure table's mutex (`closuresLock`, one per registry) is `clLock`: `some q` = held by the
+    invoking thread `q` across the body it runs.  Every other critical section of the mutex
+    (registerClosure, the free function, the look-up itself) is one atomic step, enabled only
+    while `clLock = none`: `callStart` of a call that registers at least one closure,
+    `callRecover` / `callReturnOk` of a call that has closures to release (the deferred
+    `freeClosure()`s run before the stub returns, on the normal and on the panic path), and
+    `closureInvoke`.  Calls without closures never touch the mutex.  `running q = some id`: thread
+    `q` is inside the body of closure `id`; a finished body that is never reported
+    (`closureBodyDone`) disables nothing as long as the mutex is not held across bodies.
   * unbuffered `res` (`sk.stubResChanCap = 0`): `waiterSend c` is the rendezvous — enabled only
     while the call thread is at its select; it puts the value into `res c`, and a non-empty
     `res c` disables `callLinkCtx` (the select has committed to the receive case).
@@ -167,6 +180,8 @@ structure State where
   nextClosure  : Nat
   owner        : Nat → Option Nat    -- ghost: the call that registered a closure id
   invokes      : List Invoke         -- ghost: CallClosure lookups, newest first
+  clLock       : Option Nat          -- closuresLock: the invoking thread that holds it across a closure body
+  running      : Nat → Option Nat    -- invoking thread ↦ the closure whose body it is running
   linkCtxDone  : Bool
   watcherFired : Bool
   slot         : Option Nat          -- fatalErr
@@ -179,7 +194,7 @@ structure State where
 def init : State :=
   { bc := Bc.init, calls := fun _ => Call.none, waiters := fun _ => .absent, res := fun _ => [],
     pubErr := fun _ => false, closures := fun _ => false, nextClosure := 0, owner := fun _ => none,
-    invokes := [], linkCtxDone := false, watcherFired := false, slot := none, fatalLog := [],
+    invokes := [], clLock := none, running := fun _ => none, linkCtxDone := false, watcherFired := false, slot := none, fatalLog := [],
     setters := fun _ => .absent, link := .running, crashed := false }
 
 inductive Act where
@@ -204,6 +219,7 @@ inductive Act where
   | pubCtx (p : Nat)
   | pubSendClosed (p : Nat)
   | closureInvoke (q id : Nat)
+  | closureBodyDone (q : Nat)
   | setErrEnter (t e : Nat)
   | setErrStore (t : Nat)
   | setErrClose (t : Nat)
@@ -225,6 +241,17 @@ def decodes (sk : Skeleton) (numOut : Nat) (r : Resp) : Bool :=
 def freeClosures (sk : Skeleton) (s : State) (c : Nat) : Nat → Bool :=
   fun id => if sk.stubClosureFreeDeferred = true ∧ id ∈ (s.calls c).closures then false else s.closures id
 
+/-- the ids `callStart` registers -/
+def newClosures (sk : Skeleton) (s : State) (nCl : Nat) : List Nat :=
+  if sk.stubFuncArgsRegistered = true then List.range' s.nextClosure nCl else []
+
+/-- does the return of call `c` run a `freeClosure()` (and so take `closuresLock`)? -/
+def releases (sk : Skeleton) (s : State) (c : Nat) : Prop :=
+  sk.stubClosureFreeDeferred = true ∧ (s.calls c).closures ≠ []
+
+instance (sk : Skeleton) (s : State) (c : Nat) : Decidable (releases sk s c) := by
+  unfold releases; exact inferInstance
+
 /-- `if fatalErr == nil { fatalErr = err }` -/
 def firstOr (o : Option Nat) (e : Nat) : Option Nat :=
   match o with
@@ -239,8 +266,9 @@ def store (sk : Skeleton) (s : State) (e : Nat) : State :=
 
 def step (sk : Skeleton) (s : State) : Act → Option State
   | .callStart c x numOut nCl =>
-    if s.crashed = false ∧ (s.calls c).pc = .absent ∧ s.setters c = .absent ∧ (numOut = 1 ∨ numOut = 2) then
-      let ids := if sk.stubFuncArgsRegistered = true then List.range' s.nextClosure nCl else []
+    if s.crashed = false ∧ (s.calls c).pc = .absent ∧ s.setters c = .absent ∧ (numOut = 1 ∨ numOut = 2) ∧
+       (newClosures sk s nCl ≠ [] → s.clLock = none) then
+      let ids := newClosures sk s nCl
       some { s with calls := upd s.calls c { pc := .marshalled, ctx := x, numOut := numOut, closures := ids, outcome := .pending },
                     closures := fun id => if id ∈ ids then true else s.closures id,
                     owner := fun id => if id ∈ ids then some c else s.owner id,
@@ -340,7 +368,7 @@ def step (sk : Skeleton) (s : State) : Act → Option State
       some { s with calls := upd s.calls c { s.calls c with pc := .panicking eLinkCtx } }
     else none
   | .callRecover c e =>
-    if s.crashed = false ∧ (s.calls c).pc = .panicking e then
+    if s.crashed = false ∧ (s.calls c).pc = .panicking e ∧ (releases sk s c → s.clLock = none) then
       if sk.stubRecovers = true then
         some { s with closures := freeClosures sk s c,
                       calls := upd s.calls c { s.calls c with pc := .returned, outcome := .failed e },
@@ -348,7 +376,7 @@ def step (sk : Skeleton) (s : State) : Act → Option State
       else some { s with crashed := true }       -- the panic leaves the stub: process dies
     else none
   | .callReturnOk c =>
-    if s.crashed = false ∧ (s.calls c).pc = .decoded then
+    if s.crashed = false ∧ (s.calls c).pc = .decoded ∧ (releases sk s c → s.clLock = none) then
       some { s with closures := freeClosures sk s c,
                     calls := upd s.calls c { s.calls c with pc := .returned } }
     else none
@@ -377,8 +405,15 @@ def step (sk : Skeleton) (s : State) : Act → Option State
       | none => none
     else none
   | .closureInvoke q id =>
-    if s.crashed = false then
-      some { s with invokes := { thread := q, id := id, hit := s.closures id } :: s.invokes }
+    if s.crashed = false ∧ s.clLock = none then
+      some { s with invokes := { thread := q, id := id, hit := s.closures id } :: s.invokes,
+                    running := if s.closures id = true then upd s.running q (some id) else s.running,
+                    clLock := if s.closures id = true ∧ sk.clInvokeOutsideLock = false then some q else none }
+    else none
+  | .closureBodyDone q =>
+    if s.crashed = false ∧ s.running q ≠ none then
+      some { s with running := upd s.running q none,
+                    clLock := if s.clLock = some q then none else s.clLock }
     else none
   | .setErrEnter t e =>
     if s.crashed = false ∧ s.setters t = .absent ∧ (s.calls t).pc = .absent then
